@@ -233,7 +233,7 @@ def chain_bool(chain):
         return 'rzlist_eqb (q_group_concat None (%s)) %s' % (q, val), real
     if t == 'delete':
         if err: raise Unmodelled('delete raised')
-        m = 'bulk_deleted (%s)' % q if term[1] else 'q_list Z.eqb (%s)' % q
+        m = 'bulk_deleted Z.eqb (%s)' % q if term[1] else 'q_list Z.eqb (%s)' % q
         return 'zlist_eqb (isort idk (%s)) %s' % (m, clistz(sorted(real))), real
     raise Unmodelled(t)
 
@@ -428,6 +428,29 @@ def correspondence(ctx):
         if len(samples) < 4 and len(ch['ops']) >= 2 and any(o[0] == 'nest' for o in ch['ops']): samples.append({'chain': ch, 'impl': real, 'coq_case': b})
     dist['chain_skipped_unmodelled'] = skipped
 
+    # (5b) count() of tuple queries: every (WHERE, ordered, distinct flag, count(distinct=..)) on the real translator vs q_count_pair
+    for data in ('dups', 'seven', 'same', 'empty'):
+        pdb, PP = C.get_db(data)
+        rows = C.DATASETS[data]
+        rowsc = '[' + '; '.join('(%d, %s)' % (ord(r[0]), cz(r[1])) for r in rows) + ']' if rows else '(@nil (Z * Z))'
+        with orm.db_session:
+            for where, keepc in ((None, '(fun _ => true)'), ('p.a > 1', '(fun x => 1 <? snd x)')):
+                for ordered in (False, True):
+                    for d in (None, True, False):
+                        for arg in (None, True, False):
+                            q = orm.select('(p.name, p.a) for p in P' + (' if ' + where if where else ''), {'P': PP})
+                            if ordered: q = q.order_by(2, 1)
+                            if d is not None: q = q.distinct() if d else q.without_distinct()
+                            try:
+                                v = q.count() if arg is None else q.count(distinct=arg)
+                                real = '(Ok %s)' % cz(v)
+                            except AssertionError: real = '(Err 2%nat)'
+                            except Exception as e:
+                                disagreements.append({'what': 'count() of a tuple query raised', 'input': [data, where, ordered, d, arg], 'impl': '%s: %s' % (type(e).__name__, e)}); continue
+                            cb = lambda x: 'None' if x is None else '(Some %s)' % ('true' if x else 'false')
+                            add('count_pair', 'rz_eqb (q_count_pair %s (zzquery %s %s %s true %s no_window)) %s' % (cb(arg), rowsc, keepc, 'true' if ordered else 'false', cb(d), real),
+                                [data, where, ordered, d, arg], real)
+
     # (6) reference semantics against CPython / the linked SQLite
     con = sqlite3.connect(':memory:')
     for n in range(0, 4):
@@ -461,6 +484,13 @@ def correspondence(ctx):
 
 # ------------------------------------------------------------------------------------------------ search (property oracle)
 
+def corpus_chains():
+    """minimised past failures (corpus/C24/*.json), run first"""
+    import glob, os
+    for f in sorted(glob.glob(os.path.join(vlib.VERIF, 'corpus', 'C24', '*.json'))):
+        yield json.load(open(f))['chain']
+
+
 def failure_of(chain, m):
     key = C.classify(m)
     detail = m.detail if isinstance(m.detail, dict) else {'query': m.detail}
@@ -479,7 +509,7 @@ def search(ctx, deep):
     else:
         gen = itertools.chain(gen_chains(ctx.rng, kinds, ['dups'], 1, 0, wheres=(None,)),
                               gen_chains(ctx.rng, kinds, ['empty', 'seven'], 0, 2500))
-    for ch in gen:
+    for ch in itertools.chain(corpus_chains(), gen):
         try:
             mism, _ = C.check_chain(ch)
         except C.Unsupported:
@@ -509,7 +539,7 @@ def replay(ctx, data):
 LEVEL_TEXT = ('Machine-checked proof (Coq 8.16.1), for all row lists and all non-negative bounds, that the window arithmetic of /repo (combine_limit_and_offset, '
               'Query.__getitem__, page, limit -- re-translated from source on every run) selects exactly the Python slice R[a:b] / page / nested window of the full result, '
               'and that get/exists/first/filter/order_by/distinct/count/sum/min/max/avg/group_concat/bulk delete in a list-semantics model of the query pipeline agree '
-              'with the Python operation on list(q) on the exact complement of thirteen recorded defect classes (each refuted by a witness in Findings/C24.v); '
+              'with the Python operation on list(q) on the exact complement of eleven recorded defect classes (each refuted by a witness in Findings/C24.v); '
               'the model is compared with real Pony on SQLite on generated method chains by vm_compute, and a chain oracle against Python list operations searches for failing inputs.')
 LEVEL_NOTE = ('Trusted: Coq kernel + vm_compute; py2coq translator; the correspondence harness; list-semantics models of LIMIT/OFFSET, DISTINCT, ORDER BY and the SQL aggregates '
               '(validated against SQLite); PostgreSQL/MySQL "no limit" spellings by documentation. Partial: first() after an explicit distinct(), joins/GROUP BY/prefetch, '
